@@ -475,3 +475,8 @@ func GenNBT(out []byte, tag byte, depth int, budget *int) []byte {
 	}
 	return out
 }
+
+// PoolMode selects the sync.Pool model (engine only): 0 = Get nondeterministically
+// returns a pooled object or a new one (default), 1 = always the most recently
+// pooled object (buffers are reused dirty), 2 = always a new object.
+func PoolMode(k int) {}
